@@ -279,6 +279,8 @@ type harnessEvidence struct {
 	Obligations int               `json:"obligations"`
 	Discharged  int               `json:"discharged"`
 	Trivial     int               `json:"discharged_by_constant_folding"`
+	SecretSinks int               `json:"text_sink_operands_examined_for_secrets,omitempty"`
+	SecretFlows int               `json:"text_sink_operands_mentioning_a_secret,omitempty"`
 	Violations  int               `json:"counterexamples"`
 	Reached     map[string]int    `json:"witnesses_reached"`
 	Queries     int               `json:"solver_queries"`
@@ -407,7 +409,7 @@ func cmdCheck(args []string) int {
 		}
 		ev := harnessEvidence{Name: h.Name, Entry: res.Entry, Tier: h.Tier, Mode: h.Mode, Bounds: h.Bounds, Outside: h.Outside, Unwind: h.Unwind,
 			Cuts: h.Cuts, Redirect: h.Redirect, Stubs: h.Stubs, Assumes: h.Assumes, Paths: res.Paths, Ends: res.Ends, Decisions: res.Decisions,
-			Obligations: res.Obligations, Discharged: res.Discharged, Trivial: res.Trivial, Violations: len(res.Violations), Reached: res.Reached,
+			Obligations: res.Obligations, Discharged: res.Discharged, Trivial: res.Trivial, SecretSinks: res.SecretSinks, SecretFlows: res.SecretFlows, Violations: len(res.Violations), Reached: res.Reached,
 			Queries: res.Queries, SolverSec: round2(res.SolverSec), MaxQuerySec: round2(res.MaxQuerySec), WallSec: round2(res.WallSec), Solver: res.Solver, Funcs: repoFuncs(res), Samples: res.SamplePaths}
 		for _, inc := range res.Inconclusive() {
 			inconclusive = append(inconclusive, h.Name+": "+inc)
